@@ -306,13 +306,13 @@ def subchecks():
     return [
         SubCheck(name="mask_space_exhaustive_jit", mode="enum", enumerate=enum_blocks, run_case=run_block,
                  shards={"quick": 8, "thorough": 16}, clear_every=4,
-                 doc="every assignment of the (term x group) mask product under one compiled gradient per case"),
+                 exhaustive={"quick": False, "thorough": True}, doc="every assignment of the (term x group) mask product under one compiled gradient per case"),
         SubCheck(name="mask_sample_eager", mode="given", strategy=strat_eager, run_case=run_block,
                  counts={"quick": 16, "thorough": 480}, shards={"quick": 4, "thorough": 16}, clear_every=4,
                  doc="random mask assignments evaluated eagerly (no jit)"),
         SubCheck(name="string_tree_default_equivalence", mode="enum", enumerate=enum_strings, run_case=run_strings,
                  shards={"quick": 4, "thorough": 16}, clear_every=10,
-                 doc="from_str strings vs boolean trees vs omitted terms (default nn_params), masks and gradients"),
+                 exhaustive={"quick": False, "thorough": True}, doc="from_str strings vs boolean trees vs omitted terms (default nn_params), masks and gradients"),
     ]
 
 
@@ -463,6 +463,6 @@ def subchecks():  # noqa: F811
     return _base_subchecks() + [
         SubCheck(name="system_per_unknown_terms_jit", mode="enum", enumerate=enum_sys_blocks, run_case=run_sys_block,
                  shards={"quick": 2, "thorough": 8}, clear_every=2,
-                 doc="SystemLossODE (2 unknowns): every mask of (unknown x {initial condition, observations} x group) - 2^12, "
+                 exhaustive={"quick": False, "thorough": True}, doc="SystemLossODE (2 unknowns): every mask of (unknown x {initial condition, observations} x group) - 2^12, "
                      "sampled with stride in the quick tier - vs additive reference blocks"),
     ]
